@@ -297,7 +297,10 @@ def _check_shares(what, weights, got, floor, msg, slack=0):
         for j in range(k):
             wj = weights[j]
             if wi > wj:
-                if gi < got[j] - slack:
+                # from three weighted children on, one-at-a-time rounding can leave a heavier child one behind a
+                # lighter one although both are within one column of their share ([7, 7, 7, 7.5, 7.5] over 17
+                # columns: 3 3 4 4 3) - the statement asks for no more than that
+                if gi < got[j] - max(slack, 1 if k >= 3 else 0):
                     raise Violation(f"{what}-monotone", f"{msg()}: a heavier weight got {gi}, a lighter one {got[j]}")
             elif wi == wj and abs(gi - got[j]) > (1 if k <= 4 else 2):
                 # same rounding-aware reading as `dev` above: one item is rounded at a time, so up to half a unit
